@@ -13,6 +13,11 @@
    or in no order, units without any extractable spike, max_wf beyond every unit (and the defaults of every keyword).
 5. direct extract_wfs_array calls (the gather itself): other trough offsets / lengths / neighbourhood radii, with and
    without the NaN row, other array types; the loader with every option of load_waveforms.
+
+Whatever the code under test hands back is read defensively (exc_text, as_int, decode_jobs, SURPRISE): a table cell that is
+no integer, a returned triple that is no triple of arrays, files that cannot be read or compared, hook records that are no
+ChunkJob events become the negative observation of the clause they belong to (Files:*, TracesEqualSource, Content, Loader,
+Raised), never an exception of the harness.
 """
 import copy
 import hashlib
@@ -133,6 +138,70 @@ def make_train(ns, chunk_sizes, rng, nunits, maxwf, nspk, variant=None, empty=Fa
 
 def sha(p):
     return hashlib.sha1(Path(p).read_bytes()).hexdigest()
+
+
+# ---- defensive observation of what the code under test hands back (return values, saved files, hook events): anything
+# that is not what the property promises becomes the negative observation of the clause it belongs to, never an
+# exception of the harness.  SURPRISE = what decoding a foreign value can raise (not a blanket: a NameError / AssertionError
+# / TLCError of the harness itself still ends the run with exit 2)
+SURPRISE = (TypeError, ValueError, IndexError, KeyError, AttributeError, OverflowError, ArithmeticError, LookupError)
+INT_LIM = 2 ** 31 - 1    # TLC integers are 32-bit (unit labels go up to there)
+EV_LIM = 10 ** 9         # fields of a hook event: the trace spec adds two of them
+
+
+def exc_text(e, n=150):
+    """one-line, printable, quote-free text of an exception of the real code (goes through JSON -> TLC -> a regular
+    expression over TLC's output: no quotes, backslashes, newlines or non-ASCII characters)"""
+    try:
+        msg = str(e)
+    except Exception:  # noqa  (an exception whose __str__ raises)
+        msg = "<unprintable>"
+    txt = f"{type(e).__name__}: {msg}"[:n]
+    return "".join(c if (32 <= ord(c) < 127 and c not in '"\\') else ("'" if c == '"' else " ") for c in txt).strip()
+
+
+def as_int(x, lim=INT_LIM):
+    """the integer a table cell / event field stands for, None when it is not an integer of at most `lim` in size
+    (None, NaN, inf, a string, a fraction, a list, a complex number ...)"""
+    try:
+        if isinstance(x, (bool, np.bool_, str, bytes)) or x is None:
+            return None
+        if isinstance(x, (int, np.integer)):
+            v = int(x)
+        else:
+            f = float(x)
+            if not np.isfinite(f) or f != int(f):
+                return None
+            v = int(f)
+    except SURPRISE:
+        return None
+    return v if abs(v) <= lim else None
+
+
+def decode_jobs(lines):
+    """the ChunkJob events of the hook -> (jobs for the trace record, number of records that are no well-formed ChunkJob
+    event).  A malformed record is left out: the rows it should account for then count as never written (clause Content)."""
+    jobs, bad = [], 0
+    for line in lines:
+        try:
+            e = json.loads(line)
+        except ValueError:
+            bad += 1
+            continue
+        if not isinstance(e, dict) or e.get("ev") != "ChunkJob":
+            bad += 0 if isinstance(e, dict) and isinstance(e.get("ev"), str) else 1
+            continue
+        c, first, ln = as_int(e.get("i_chunk"), 10 ** 4), as_int(e.get("snip_first"), EV_LIM), as_int(e.get("snip_len"), EV_LIM)
+        cols = []
+        for k in ("rows", "samples", "local"):
+            v = e.get(k)
+            cols.append([as_int(x, EV_LIM) for x in v] if isinstance(v, list) else None)
+        if None in (c, first, ln) or any(col is None or None in col for col in cols) or len({len(col) for col in cols}) != 1:
+            bad += 1
+            continue
+        jobs.append({"c": c, "rows": cols[0], "samples": cols[1], "local": cols[2], "snip_first": first, "snip_len": ln})
+    jobs.sort(key=lambda j: j["c"])
+    return jobs, bad
 
 
 FILES = ("waveforms.traces.npy", "waveforms.table.pqt", "waveforms.channels.npz", "waveforms.templates.npy")
@@ -321,6 +390,18 @@ def one_extract(ctx, binf, d, train, sc, idx, master=None):
         srx.close()
         src = (cdir / binf.name).with_suffix(".cbin")
         before = sorted(p.name for p in cdir.iterdir())
+    if sc.get("link"):
+        # the recording reached through a symbolic link (seed round i): the binary lives in a store under another name, the session
+        # folder holds the link and the metadata - what the parent's reader and every worker's reader must open
+        ldir = Path(ctx.scratch) / f"wflink_{idx}"
+        shutil.rmtree(ldir, ignore_errors=True)
+        (ldir / "store").mkdir(parents=True)
+        (ldir / "session").mkdir()
+        blob = ldir / "store" / "blob_0001.dat"
+        shutil.copy(binf, blob)
+        src = ldir / "session" / binf.name
+        src.symlink_to(blob)
+        shutil.copy(binf.with_suffix(".meta"), src.with_suffix(".meta"))
     kw = {"max_wf": sc["maxwf"], "chunksize_samples": sc["chunk"], "n_jobs": sc["njobs"]}
     kw = {a: b for a, b in kw.items() if b is not None}
     if not sc.get("noseed"):
@@ -342,7 +423,7 @@ def one_extract(ctx, binf, d, train, sc, idx, master=None):
     try:
         we.extract_wfs_cbin(src, out, ss, sc_, sp, preprocess_steps=[], **kw)
     except Exception as e:  # noqa
-        rec["exc"] = f"{type(e).__name__}: {e}"[:150].replace('"', "'")
+        rec["exc"] = exc_text(e)
         return rec
     src = Path(src)
     if before is not None:
@@ -351,12 +432,12 @@ def one_extract(ctx, binf, d, train, sc, idx, master=None):
             rec["source_dir_changed"] = {"before": before, "after": after}
         shutil.rmtree(src.parent, ignore_errors=True)
         shutil.rmtree(Path(ctx.scratch) / f"wfscr_{idx}", ignore_errors=True)
-    evs = []
+    lines = []
     for f in sorted(trdir.glob("*.ndjson")):
-        evs += [json.loads(line) for line in f.read_text().splitlines()]
-    evs = sorted([e for e in evs if e["ev"] == "ChunkJob"], key=lambda e: e["i_chunk"])
-    rec["jobs"] = [{"c": e["i_chunk"], "rows": e["rows"], "samples": e["samples"], "local": e["local"],
-                    "snip_first": e["snip_first"], "snip_len": e["snip_len"]} for e in evs]
+        lines += f.read_text(errors="replace").splitlines()
+    rec["jobs"], malformed = decode_jobs(lines)
+    if malformed:
+        rec["detail"]["hook"] = f"{malformed} record(s) of the write_wfs_chunk hook are no well-formed ChunkJob event (left out)"
     # ---- files
     try:
         tab = pd.read_parquet(out / "waveforms.table.pqt").reset_index(drop=True)   # row position = row of the traces file
@@ -368,62 +449,90 @@ def one_extract(ctx, binf, d, train, sc, idx, master=None):
     except Exception as e:  # noqa
         # the folder does not hold a readable set of the four files (e.g. what an earlier run left is still there)
         rec["obs"]["rows_ok"] = False
-        rec["detail"]["files"] = f"{type(e).__name__}: {e}"[:200]
+        rec["detail"]["files"] = exc_text(e, 200)
         shutil.rmtree(out, ignore_errors=True)
         return rec
     key = {(t[0], t[1]): i + 1 for i, t in enumerate(train)}
     rows = []
-    for r in tab.itertuples():
-        k = (int(r.sample), int(r.cluster))
-        if k not in key or train[key[k] - 1][2] != int(r.peak_channel):
-            rec["obs"]["table_ok"] = False
-            rec["detail"]["table_row"] = [int(r.sample), int(r.cluster), int(r.peak_channel)]
-            continue
-        rows.append((key[k], int(r.waveform_index)))
-    rec["table"] = [{"sp": a, "widx": b} for a, b in sorted(rows)]
     n = len(tab)
+    # a table cell that is no integer (None, NaN, a string, a fraction, beyond 32 bits) names no spike of the train
+    cells = [[as_int(tab[c].iloc[r], EV_LIM if c == "waveform_index" else INT_LIM) for c in ("sample", "cluster", "peak_channel", "waveform_index")]
+             for r in range(n)]
+    for smp, clu, pch, widx in cells:
+        k = (smp, clu)
+        if None in (smp, clu, pch) or k not in key or train[key[k] - 1][2] != pch:
+            rec["obs"]["table_ok"] = False
+            rec["detail"]["table_row"] = [smp, clu, pch, widx]
+            continue
+        if widx is None:        # the row is a spike of the train, its waveform_index is no row number (clause RowOrder)
+            rec["obs"]["order_ok"] = False
+            rec["detail"]["widx"] = f"waveform_index of (sample {smp}, cluster {clu}) is no integer row number"
+            widx = -1
+        rows.append((key[k], widx))
+    rec["table"] = [{"sp": a, "widx": b} for a, b in sorted(rows)]
     rec["obs"]["rows_ok"] = bool(traces.shape[0] == n and chans.shape[0] == n and traces.shape[2] == LEN)
     # saved table is sorted by (cluster, sample) and row r describes traces row r
-    wi = tab["waveform_index"].to_numpy()
-    rec["obs"]["order_ok"] = bool(np.array_equal(wi, np.arange(n)))
-    iwc = tab["index_within_clusters"].to_numpy() if "index_within_clusters" in tab else None
-    exp_iwc = tab.groupby("cluster").cumcount().to_numpy()
-    if iwc is None or not np.array_equal(iwc, exp_iwc):
+    exp_iwc = np.zeros(n, dtype=np.int64)
+    try:
+        wi = tab["waveform_index"].to_numpy()
+        rec["obs"]["order_ok"] = bool(rec["obs"]["order_ok"] and np.array_equal(wi, np.arange(n)))
+        iwc = tab["index_within_clusters"].to_numpy() if "index_within_clusters" in tab else None
+        exp_iwc = tab.groupby("cluster").cumcount().to_numpy()
+        if iwc is None or not np.array_equal(iwc, exp_iwc):
+            rec["obs"]["order_ok"] = False
+            rec["detail"]["iwc"] = "index_within_clusters is not the running index inside each cluster"
+    except SURPRISE as e:
         rec["obs"]["order_ok"] = False
-        rec["detail"]["iwc"] = "index_within_clusters is not the running index inside each cluster"
+        rec["detail"]["iwc"] = f"waveform_index / cluster / index_within_clusters columns cannot be read as indices: {exc_text(e)}"
     sr = spikeglx.Reader(binf)
     geom = np.c_[sr.geometry["x"], sr.geometry["y"]]
-    nb = make_channel_index(geom)
     # independent reading of the neighbourhood: ascending channels within 200 um, padded with nc
     dist = np.sqrt(((geom[:, None, :] - geom[None, :, :]) ** 2).sum(-1))
+    try:
+        width = int(make_channel_index(geom).shape[1])
+    except Exception:  # noqa  (the library's neighbourhood table only gives the padded width: take it from the distances)
+        width = int((dist <= 200.0).sum(1).max())
     # source traces as the reader hands them out (geometry order; the reader itself is the subject of C01)
     full = np.vstack([sr[:, :-sr.nsync].T, np.full((1, ns), np.nan, dtype=np.float32)])
     content = []
     if rec["obs"]["rows_ok"]:
         for r in range(n):
-            s, pk = int(tab["sample"].iloc[r]), int(tab["peak_channel"].iloc[r])
+            s, pk = cells[r][0], cells[r][2]
+            if s is None or pk is None or not 0 <= pk < geom.shape[0]:
+                # the row names no sample / no channel of the probe: its waveform is the window of nothing
+                content.append(0)
+                rec["obs"]["chan_ok"] = False
+                continue
             near = np.flatnonzero(dist[pk] <= 200.0)
-            cind = np.full(nb.shape[1], geom.shape[0])
+            cind = np.full(width, geom.shape[0])
             cind[: near.size] = near
             want = full[cind][:, s - TROUGH: s - TROUGH + LEN]
-            ok = want.shape == traces[r].shape and np.array_equal(traces[r], want, equal_nan=True)
+            try:
+                ok = want.shape == traces[r].shape and np.array_equal(traces[r], want, equal_nan=True)
+            except SURPRISE:        # a traces file of an element type that cannot be compared with numbers
+                ok = False
             content.append(1 if ok else 0)
             if not np.array_equal(chans[r], cind):
                 rec["obs"]["chan_ok"] = False
         # templates: row i = median over the rows of the i-th cluster present in the table
-        for i, (cl, g) in enumerate(tab.groupby("cluster", sort=True)):
-            med = np.nanmedian(traces[g.index.min(): g.index.max() + 1], axis=0)
-            if i >= templ.shape[0] or templ[i].shape != med.shape or not np.allclose(templ[i], med, rtol=1e-6, atol=0, equal_nan=True):
-                rec["obs"]["templ_ok"] = False
+        try:
+            for i, (cl, g) in enumerate(tab.groupby("cluster", sort=True)):
+                med = np.nanmedian(traces[g.index.min(): g.index.max() + 1], axis=0)
+                if i >= templ.shape[0] or templ[i].shape != med.shape or not np.allclose(templ[i], med, rtol=1e-6, atol=0, equal_nan=True):
+                    rec["obs"]["templ_ok"] = False
+        except SURPRISE as e:
+            rec["obs"]["templ_ok"] = False
+            rec["detail"]["templates"] = f"templates cannot be compared with the medians of the traces rows: {exc_text(e)}"
     # content indexed by waveform_index (row r <-> widx r when order_ok)
     rec["content"] = content
     # loader returns what was saved
-    absent = [int(u) for u in sorted({t[1] for t in train} - set(tab["cluster"].tolist()))] + [(int(tab["cluster"].max()) if len(tab) else 0) + 17]
+    present = {c[1] for c in cells if c[1] is not None}
+    absent = [int(u) for u in sorted({t[1] for t in train} - present)] + [max(present, default=0) + 17]
     try:
         # an empty extraction (no spike far enough from both ends) leaves empty files: there is nothing for the loader to return
         bad = check_loader(we, out if idx % 2 else str(out), tab, traces, chans, templ, exp_iwc, absent) if len(tab) else ""
     except Exception as e:  # noqa
-        bad = f"{type(e).__name__}: {e}"[:200]
+        bad = exc_text(e, 200)
     if bad:
         rec["obs"]["loader_ok"] = False
         rec["detail"]["loader"] = bad
@@ -482,7 +591,6 @@ def one_array(ctx, binf, sc):
     else:       # a slice of a larger table: other columns, an index that does not start at 0, 32-bit columns
         df = pd.DataFrame({"cluster": 5, "sample": np.array(smp, dtype=np.int32), "peak_channel": np.array(peaks, dtype=np.int32),
                            "waveform_index": np.arange(len(smp))[::-1]}, index=np.arange(len(smp)) + 1000)
-    nb = make_channel_index(geom) if radius is None else make_channel_index(geom, radius=radius)
     kw = {}
     if (T, L) != (42, 128) or dfk:
         kw.update(trough_offset=T, spike_length_samples=L)
@@ -491,17 +599,27 @@ def one_array(ctx, binf, sc):
     if verbose:
         kw["verbose"] = True
     try:
+        nb = make_channel_index(geom) if radius is None else make_channel_index(geom, radius=radius)
         res = we.extract_wfs_array(arr, df, nb, **kw)
         wfs, cind, third = res
     except Exception as e:  # noqa
-        rec["exc"] = f"{type(e).__name__}: {e}"[:150].replace('"', "'")
+        rec["exc"] = exc_text(e)
         return rec
     # independent reading of the neighbourhood: ascending channels within the radius, padded with nc
     dist = np.sqrt(((geom[:, None, :] - geom[None, :, :]) ** 2).sum(-1))
     within = dist <= (200.0 if radius is None else radius)
     width = int(within.sum(1).max())
-    wfs, cind = np.asarray(wfs), np.asarray(cind)
-    rec["obs"]["rows_ok"] = bool(wfs.shape == (len(smp), width, L) and cind.shape == (len(smp), width) and third == T)
+    # what came back is read defensively: anything that is not (array (n, width, L), array (n, width), the trough offset)
+    # is the negative observation of Files:rows; a row that cannot be compared with numbers does not equal the source
+    try:
+        wfs, cind = np.asarray(wfs), np.asarray(cind)
+        same = np.asarray(third == T)
+        rec["obs"]["rows_ok"] = bool(wfs.shape == (len(smp), width, L) and cind.shape == (len(smp), width)
+                                     and same.size == 1 and bool(same.all()))
+    except SURPRISE as e:
+        rec["obs"]["rows_ok"] = False
+        rec["detail"]["shape"] = f"the returned triple cannot be read as (waveforms, channels, trough offset): {exc_text(e)}"
+        return rec
     if rec["obs"]["rows_ok"]:
         for i, (s_, pk) in enumerate(zip(smp, peaks)):
             near = np.flatnonzero(within[pk])
@@ -509,9 +627,14 @@ def one_array(ctx, binf, sc):
             want_c[: near.size] = near
             if not np.array_equal(cind[i], want_c):
                 rec["obs"]["chan_ok"] = False
-            rec["content"].append(1 if np.array_equal(wfs[i].astype(np.float64), full[want_c][:, s_ - T: s_ - T + L], equal_nan=True) else 0)
+            try:
+                got = wfs[i] if np.iscomplexobj(wfs[i]) else wfs[i].astype(np.float64)     # (a cast would drop an imaginary part)
+                same = np.array_equal(got, full[want_c][:, s_ - T: s_ - T + L], equal_nan=True)
+            except SURPRISE:
+                same = False
+            rec["content"].append(1 if same else 0)
     else:
-        rec["detail"]["shape"] = [list(wfs.shape), list(cind.shape), [len(smp), width, L]]
+        rec["detail"]["shape"] = [[int(x) for x in wfs.shape], [int(x) for x in cind.shape], [len(smp), width, L]]
     return rec
 
 
@@ -625,6 +748,8 @@ def scenarios(ctx):
                   "ids": (ri * trains) % 3, "empty": (ri * trains) % 2 == 0}
         for j, (chunk, nj) in enumerate([(3000, 1), (500, 2)] if ctx.quick else [(3000, 1), (500, 2), (1000, 4), (10000, 8)]):
             scs.append(dict(common, maxwf=8, chunk=chunk, njobs=nj, group=f"r{ri}new", k=j, left=0, rewrite=j == 0))
+        # ... and reached through a symbolic link (same files required as for the plain path: same group)
+        scs.append(dict(common, maxwf=8, chunk=1000, njobs=2, group=f"r{ri}new", k=9, left=0, link=True))
     return scs
 
 
